@@ -116,10 +116,12 @@ func newHVSJob(pw []int64) *hvsJob {
 			}
 		}
 	}
-	// validator 0's conflicting votes for B, delivered by another peer q
+	// validator 0's conflicting votes, delivered by another peer q: a single-component sibling of A
+	// per round (1: other block hash, 2: other part-set root, 3: other part-set total)
+	alt := map[uint32]int{1: bB, 2: bAr, 3: bAp}
 	for rd := uint32(1); rd <= 3; rd++ {
 		for _, t := range voteTypes {
-			add(&hvsToken{name: fmt.Sprintf("q>v0:r%d:%s:B", rd, tn[t]), kind: "vote-B", vote: mk(0, rd, t, bB, height), peer: "q"})
+			add(&hvsToken{name: fmt.Sprintf("q>v0:r%d:%s:%s", rd, tn[t], blkName[alt[rd]]), kind: "vote-B", vote: mk(0, rd, t, alt[rd], height), peer: "q"})
 		}
 	}
 	// a third unknown round from peer p0; a wrong-height vote for an unknown round; an invalid type
@@ -176,7 +178,7 @@ func (o hvsOracle) apply(t *hvsToken) hvsOracle {
 				o.excluded[t.set] |= 1 << uint(t.cv)
 			}
 		}
-		s.offered |= 1 << uint(4*t.cv+t.cb)
+		s.offered |= 1 << uint(nBlk*t.cv+t.cb)
 	}
 	return o
 }
